@@ -4,6 +4,7 @@ import (
 	"context"
 	"hash/fnv"
 	"sync"
+	"sync/atomic"
 	"time"
 
 	"github.com/veesix-networks/osvbng/pkg/auth"
@@ -59,6 +60,13 @@ type AccountingSession struct {
 	// pruneOrphanedAcctEntries past pendingConfirmDeadline.
 	pendingSessionConfirm  bool
 	pendingConfirmDeadline time.Time
+
+	// released is set once the entry has been removed from acctCache and
+	// its checkpoint deleted (session release or orphan prune). A
+	// sendAccountingUpdate goroutine whose Accounting-Response arrives
+	// after that still holds a pointer to the entry; it must not write
+	// the checkpoint again.
+	released atomic.Bool
 
 	// Persisted accounting baseline — fully owned and mutated by AAA.
 	// See AccountingCheckpoint in accounting.go for semantics.
@@ -736,6 +744,7 @@ func (c *Component) handleSessionRelease(sessionId, username, mac, acctSessionID
 	acctSession, exists := c.acctCache[sessionId]
 	if exists {
 		delete(c.acctCache, sessionId)
+		acctSession.released.Store(true)
 	}
 	c.acctCacheMu.Unlock()
 	c.deleteAcctCheckpoint(sessionId)
